@@ -817,7 +817,7 @@ def add_obligations(pack, ss, tier, pid='C03'):
                'triplets.vjac[<variable name>] is the idx-th generated entry); no stock model defines j_numeric')
     items = [(model_j_update(pid), None, replay_model_j_update)] + [(c,) for c in jac_eq_var_name(pid)] + [(system_store_sparse_pattern(pid),), (model_store_sparse_pattern(pid),), (system_j_update(pid), None, replay_system_j_update), (j_islands(pid), None, replay_j_islands), (j_islands_rebuild(pid), None, replay_j_islands)] + [(c, None, replay_pattern) for c in dae_restore_sparse(pid) + dae_build_pattern(pid)]
     from contracts import fn_sequence as Q
-    items += [(c,) for c in Q.jactriplet(pid)]
+    items += [(c, None, Q.replay_jactriplet) for c in Q.jactriplet(pid)]
     # the matrix a Newton step solves with is assembled at the point (variables AND discrete state) the residual was evaluated at
     from contracts import fn_pflow as P
     items += [(P.nr_step_point(pid), None, P.replay_nr_step_point)]
